@@ -73,6 +73,29 @@ example : PlanOK
                                files := [(" x ".toList, .file 0o600 3 4)] }] }] } :=
   ⟨by decide, by decide, by decide, by decide, by decide, by decide⟩
 
+/-- the *character-wise* variant of the staging check (`os.path.commonprefix([root, normpath(output)]) == root`):
+DESTDIR's normalised spelling is a string prefix of the destination's -/
+def destOkChars (destdir output : Str) : Bool :=
+  destdir = [] || (normpath destdir).isPrefixOf (normpath output)
+
+/-- what `confined_destination` proves for the component-wise check, stated for the character-wise one -/
+def confined_charprefix_statement : Prop :=
+  ∀ destdir out : Str, isAbs destdir = true → isAbs out = true → destOkChars destdir out = true →
+    keyOfAbs destdir <+: keyOfAbs out
+
+/-- the character-wise check is **not** sound: with `DESTDIR=/t/stage` the install dir
+`share/../../../stage-extra/etc` (prefix `/usr`) normalises to `/t/stage-extra/etc`, which starts with the
+*characters* `/t/stage` but lies in a sibling of DESTDIR; the component-wise check of the code refuses it -/
+theorem confined_charprefix_counterexample : ¬ confined_charprefix_statement := by
+  intro h
+  have := h "/t/stage".toList "/t/stage/usr/share/../../../stage-extra/etc".toList (by decide) (by decide) (by decide)
+  revert this
+  decide
+
+example : destOk "/t/stage".toList "/t/stage/usr/share/../../../stage-extra/etc".toList = false ∧
+    destOk "/t/stage".toList "/t/stage/../stage.d/x".toList = false ∧
+    destOk "/t/stage".toList "/t/stage/usr/share/../../../stage/etc".toList = true := by decide
+
 /-- the former escape is refused: `share/../../../outside/d.txt`, prefix `/usr`, `DESTDIR=/tmp/x/dest`;
 an install path with `..` that stays inside DESTDIR is still accepted -/
 example :
